@@ -12,3 +12,13 @@ if [ ! -x .venv/bin/python ] || ! .venv/bin/python -c "import crosshair, z3, syn
   .venv/bin/pip install -q --no-index --find-links /opt/veriftools/wheels crosshair-tool z3-solver
 fi
 .venv/bin/python -c "import crosshair, z3, synced_collections; print('overlay ok', crosshair.__version__, z3.get_version_string())"
+# second overlay with numpy (NUMPY=True world of C19's Engine B); optional: C19 reports the
+# numpy world as not examined if it is missing
+if [ ! -x .venv-np/bin/python ] || ! .venv-np/bin/python -c "import numpy, z3, synced_collections" >/dev/null 2>&1; then
+  rm -rf .venv-np
+  /venv/bin/python -m venv .venv-np
+  SP=$(.venv-np/bin/python -c "import sysconfig; print(sysconfig.get_paths()['purelib'])")
+  echo "import site; site.addsitedir('/venv/lib/python3.12/site-packages')" > "$SP/_verif_base.pth"
+  .venv-np/bin/pip install -q --no-index --find-links /opt/veriftools/wheels numpy z3-solver || echo "numpy overlay not built"
+fi
+.venv-np/bin/python -c "import numpy, z3; print('numpy overlay ok', numpy.__version__)" || true
